@@ -490,3 +490,135 @@ def cases_of(pc_values):
                 for gg in ex:
                     out.append((gg, v2))
     return out
+
+
+# ---------------------------------------------------------------- equality of two terms that differ in piecewise-linear parts
+
+_LINEAR_BOOL = ('and', 'or', 'not', 'le0', 'eq0', 'true', 'false')
+
+
+def _opaque_atoms(t):
+    """the non-linear atoms of the conditions of t (pattern tests, pointer equality, float comparisons, boolean calls):
+    what stands in condition position -- of a conditional, an indicator, below and / or / not -- and is not a linear test"""
+    out = []
+
+    def cond(c):
+        if not isinstance(c, tuple) or not c or c in (T.TRUE, T.FALSE):
+            return
+        if c[0] in ('and', 'or'):
+            for x in c[1]:
+                cond(x)
+        elif c[0] == 'not':
+            cond(c[1])
+        elif c[0] in ('le0', 'eq0'):
+            walk(c[1])
+        elif c not in out:
+            out.append(c)
+
+    def walk(x):
+        if not isinstance(x, tuple) or not x:
+            return
+        if T.is_lin(x):
+            for r, _ in x[2]:
+                walk(r)
+            return
+        if x[0] == 'ite' and len(x) == 4:
+            cond(x[1]); walk(x[2]); walk(x[3])
+            return
+        if x[0] == 'ind' and len(x) == 2:
+            cond(x[1])
+            return
+        if x[0] in ('and', 'or', 'not', 'le0', 'eq0'):
+            cond(x)
+            return
+        if x[0] in ('lam', 'lam2'):
+            return      # conditions below a binder talk about other values
+        for y in x:
+            walk(y)
+    walk(t)
+    return out
+
+
+def _root_equal(r1, r2, assumptions, fuel):
+    """two atomic roots (a table entry, a call, an aggregate ..) are the same value: same constructor, equal arguments"""
+    if r1 == r2:
+        return True
+    if not (isinstance(r1, tuple) and isinstance(r2, tuple) and r1 and r2 and r1[0] == r2[0] and len(r1) == len(r2)) or r1[0] in SPLITTABLE:
+        return False
+    return all(terms_equal(x, y, assumptions, fuel) if isinstance(x, tuple) and isinstance(y, tuple) else x == y for x, y in zip(r1, r2))
+
+
+def terms_equal(t1, t2, assumptions=(), fuel=5):
+    """t1 and t2 denote the same value for every valuation of their roots (roots are non-negative integers): identical, or
+    identical up to sub-terms that are piecewise linear and provably equal case by case.  The comparison descends through
+    equal constructors; where the two differ, opaque boolean atoms (pattern tests, pointer comparisons) are decided by
+    Shannon expansion -- both sides are compared with the atom true and with it false -- and the rest by case splitting."""
+    if t1 == t2:
+        return True
+    u1, u2 = T.unroot(t1), T.unroot(t2)
+    if u1 == u2:
+        return True
+    numeric1 = T.is_lin(t1) or (isinstance(u1, tuple) and u1 and u1[0] in SPLITTABLE)
+    numeric2 = T.is_lin(t2) or (isinstance(u2, tuple) and u2 and u2[0] in SPLITTABLE)
+    if not (numeric1 or numeric2) and isinstance(u1, tuple) and isinstance(u2, tuple) and len(u1) == len(u2) and u1 and u1[0] == u2[0]:
+        return all(terms_equal(x, y, assumptions, fuel) if isinstance(x, tuple) and isinstance(y, tuple) else x == y for x, y in zip(u1, u2))
+    if not (numeric1 or numeric2):
+        return False
+    if T.is_bool(u1) or T.is_bool(u2):
+        return False
+    if fuel > 0:
+        atoms = sorted(set(_opaque_atoms(t1)) | set(_opaque_atoms(t2)), key=repr)
+        # innermost first: an atom that contains no other atom
+        atoms = [a for a in atoms if not any(b != a and any(y == b for y in T.subterms(a)) for b in atoms)] or atoms
+        if atoms:
+            a = atoms[0]
+            return all(terms_equal(T.substitute(t1, {a: v}), T.substitute(t2, {a: v}), assumptions, fuel - 1) for v in (T.TRUE, T.FALSE))
+    c1, c2 = cases_of([((), T.as_lin(t1))]), cases_of([((), T.as_lin(t2))])
+    if c1 is not None and c2 is not None:
+        try:
+            r = equal_under(c1, c2, list(assumptions))
+            if r and r[0]:
+                return True
+        except Exception:
+            pass
+    # linear forms over different roots: equal if the roots pair up as equal terms with equal coefficients
+    l1, l2 = T.as_lin(t1), T.as_lin(t2)
+    if l1[1] == l2[1] and len(l1[2]) == len(l2[2]):
+        rest = list(l2[2])
+        for r, c in l1[2]:
+            hit = next((j for j, (r2, c2_) in enumerate(rest) if c2_ == c and _root_equal(r, r2, assumptions, fuel)), None)
+            if hit is None:
+                return False
+            rest.pop(hit)
+        return True
+    return False
+
+
+def selftest():
+    """the equality prover must refuse what is not equal (a prover that says yes to everything would silence the fall-backs
+    that rely on it): run before every check; -> list of failed expectations"""
+    x = T.root(('bv', 1))
+    a = ('ptreq', ('bv', 0), ('p', 2))
+    p3 = T.root(('p', 3))
+    cases = [
+        (False, T.pos(T.sub(x, T.const(1))), T.pos(T.sub(x, T.const(2)))),
+        (False, T.ite(a, x, T.const(0)), T.ite(T.tnot(a), x, T.const(0))),
+        (False, ('map', ('p', 1), ('lam', 0, T.add(x, T.const(1)))), ('map', ('p', 1), ('lam', 0, x))),
+        (True, ('map', ('p', 1), ('lam', 0, T.tmax(x, T.const(0)))), ('map', ('p', 1), ('lam', 0, x))),
+        (False, T.tmin(x, p3), T.tmax(x, p3)),
+        (True, T.root(('idx', ('p', 1), T.tmax(x, T.const(0)))), T.root(('idx', ('p', 1), x))),
+        (False, T.root(('idx', ('p', 1), T.add(x, T.const(1)))), T.root(('idx', ('p', 1), x))),
+        (True, T.pos(T.sub(T.add(x, T.ind(T.tnot(a))), T.const(1))), T.ite(T.tnot(a), x, T.pos(T.sub(x, T.const(1))))),
+        (False, T.pos(T.sub(T.add(x, T.ind(a)), T.const(1))), T.ite(T.tnot(a), x, T.pos(T.sub(x, T.const(1))))),
+        (True, T.ite(T.cmp('Ge', T.tmin(x, p3), T.const(1)), x, T.const(0)), T.ite(T.tand(T.cmp('Ge', x, T.const(1)), T.cmp('Ge', p3, T.const(1))), x, T.const(0))),
+        (False, T.ite(T.cmp('Ge', T.tmin(x, p3), T.const(1)), x, T.const(0)), T.ite(T.cmp('Ge', x, T.const(1)), x, T.const(0))),
+    ]
+    bad = []
+    for i, (want, t1, t2) in enumerate(cases):
+        if bool(terms_equal(t1, t2)) != want:
+            bad.append(f'terms_equal case {i}: expected {want}')
+    if not infeasible([T.as_lin(T.sub(T.const(1), x)), T.as_lin(x)]):      # 1 - x <= 0 and x <= 0
+        bad.append('infeasible: 1 <= x <= 0 not refuted')
+    if infeasible([T.as_lin(T.sub(T.const(1), x))]):
+        bad.append('infeasible: x >= 1 refuted')
+    return bad
